@@ -1,6 +1,7 @@
 package main
 
 import (
+	"io"
 	"bufio"
 	"flag"
 	"fmt"
@@ -253,7 +254,28 @@ func runConc(seed int64, nclients, nops int, size uint64, out string, shape stri
 			}
 		}(c)
 	}
+	// the statistics thread of the real server (SIGUSR1 handler of cmd/go-nfsd): dumps and resets the
+	// per-procedure counters while requests are being served
+	statStop := make(chan struct{})
+	statDone := make(chan struct{})
+	go func() {
+		defer close(statDone)
+		for k := 0; ; k++ {
+			select {
+			case <-statStop:
+				return
+			default:
+			}
+			r.srv.WriteOpStats(io.Discard)
+			if k%7 == 6 {
+				r.srv.ResetOpStats()
+			}
+			time.Sleep(200 * time.Microsecond)
+		}
+	}()
 	wg.Wait()
+	close(statStop)
+	<-statDone
 	fstxn.VerifHook = nil
 	sort.Slice(hist, func(i, j int) bool { return hist[i].inv < hist[j].inv })
 	for _, ev := range hist {
